@@ -64,7 +64,9 @@ def cases(draw, tier):
             "ncol": draw(st.sampled_from([0, 0, 2])), "tol_exp": draw(st.sampled_from([-10, -8, -6])),
             "bdt": draw(st.sampled_from(["same", "same", "complex", "f32op"])),
             # inner dimensions of a lazy product (each factor full rank; the chain keeps the product full rank)
-            "inner": draw(st.sampled_from(["max", "max", "min", "mid"])), "nfac": draw(st.integers(2, 3))}
+            "inner": draw(st.sampled_from(["max", "max", "min", "mid"])), "nfac": draw(st.integers(2, 3)),
+            # round 6: the operator given in other units (payload times 10^pscale): pinv scales with the inverse factor
+            "pscale": draw(st.sampled_from([0, 0, 0, -8, -7, -6, -3, 4, 6]))}
     return case
 
 
@@ -313,6 +315,10 @@ def check(case, out):
         M = M.astype(np.float32).astype(np.float64)
         A = cola.ops.Dense(M.astype(np.float32))
         out.label("rhs:f64_for_f32_operator")
+    if case.get("pscale") and type(A).__name__ == "Dense" and not A.annotations and "rhs:f64_for_f32_operator" not in out.labels:
+        M = M * 10.0 ** case["pscale"]
+        A = cola.ops.Dense(M.copy())
+        out.label("pscale:%d" % case["pscale"])
     try:
         x = np.asarray(L.pinv(A, *([alg] if alg is not None else [])) @ b)
     except Exception as e:
